@@ -288,6 +288,30 @@ Theorem C01_concurrent_any_order : forall e k sid_req sid_rsp max impl (Ps : pfi
     forall q, In q qs -> client_conn e sid_rsp max chunks_p (q_id q) = srv_reply e impl i q.
 Proof. intros e k sid_req sid_rsp max impl Ps i qs sent cq written cp Hwf Hk Hq Hp Hm. exact (EndToEndFull.concurrent_closed e k Hwf Hk sid_req sid_rsp Hq Hp max Hm impl Ps i qs sent cq written cp). Qed.
 
+(* CONCURRENT CALLERS AT THE LEVEL OF CALL RESULTS: for any set of calls of the generated proxy whose requests (distinct
+   ids) share one connection - sent in any order, cut into any TCP segments, served and answered in any order, the reply
+   stream cut into any segments - what each caller gets ([conc_result]: its own decoded reply through the error mapping
+   and the proxy's decoder, nothing for a one-way call) is exactly what the same call returns when it is made alone. With
+   C01_transparent_ok / C01_transparent_err / C01_oneway: every concurrent caller gets the values, error or nothing its
+   own call of the implementation produced. What this does NOT cover (monitored only: concurrent batches and the 64 x 300
+   burst with byte-exact unique payloads): the goroutines, the pending-call table (C08) and the byte buffers of the real
+   client and server (sharing/pooling of buffers) - the model has values, not buffers. *)
+Theorem C01_concurrent_calls : forall e k sid_req sid_rsp max impl (Pc Ps : pfilters ev unit) i
+    (qs sent : list reqpkt) (chunks_q : list bytes) (written : list rsppkt) (chunks_p : list bytes),
+    wf_schema k e -> (k <= 40)%nat ->
+    fields_of e sid_req = schema_requestf_RequestPacket -> fields_of e sid_rsp = schema_requestf_ResponsePacket ->
+    max < 4294967296 ->
+    Permutation.Permutation sent qs -> NoDup (map q_id qs) ->
+    Forall (req_sendable e sid_req max) sent ->
+    concat chunks_q = concat (map (enc_req e sid_req) sent) ->
+    Permutation.Permutation written (server_conn e sid_req max impl (filters_of disp_res Ps) i chunks_q) ->
+    Forall (rsp_sendable e sid_rsp max) written ->
+    concat chunks_p = concat (map (enc_rsp e sid_rsp) written) ->
+    forall f args o ow id sv t, In (mkreq e f args o ow id sv t) qs ->
+      conc_result e sid_rsp max chunks_p f args o (mkreq e f args o ow id sv t) =
+      fst (call e sid_req sid_rsp max impl (filters_of inv_res Pc) (filters_of disp_res Ps) i f args o ow id sv t).
+Proof. intros e k sid_req sid_rsp max impl Pc Ps i qs sent cq written cp Hwf Hk Hq Hp Hm. exact (EndToEndFull.concurrent_calls e k Hwf Hk sid_req sid_rsp Hq Hp max Hm impl Pc Ps i qs sent cq written cp). Qed.
+
 Print Assumptions C01_transparent_ok_any_outs.
 Print Assumptions C01_prefilled_out_witness.
 Print Assumptions C01_minus_zero_witness.
@@ -308,3 +332,4 @@ Print Assumptions C01_filters_once.
 Print Assumptions C01_filters_run.
 Print Assumptions C01_concurrent_partial.
 Print Assumptions C01_concurrent_any_order.
+Print Assumptions C01_concurrent_calls.
